@@ -10,7 +10,7 @@ SPEC = {
                      'theories/C10/MsgpackProofs.v', 'theories/Gen/Consts.v'],
     'harness': 'wiremsgpack',
     'args': {
-        'quick': ['-enc', 1200, '-ref', 1200, '-mut', 1000, '-rand', 700, '-deep', 2000000],
+        'quick': ['-enc', 900, '-ref', 900, '-mut', 800, '-rand', 500, '-deep', 2000000],
         'thorough': ['-enc', 20000, '-ref', 20000, '-mut', 20000, '-rand', 15000, '-deep', 3000000],
     },
     'search_args': ['-enc', 6000, '-ref', 6000, '-mut', 5000, '-rand', 4000, '-deep', 0],
